@@ -239,6 +239,10 @@ def judge(problem, batch, exc, rows, info, store, faults, desc):
 
 def body_factory(ntasks, store, fine, faults, col=None):
     def body(ctx):
+        # re-sampling after an injected failure draws random numbers: every execution starts from the same owned stream
+        # (a process that ran another check before has the shim installed; its draw budget is per execution)
+        from ..core import shim as shim_mod
+        shim_mod.install().reset(4242, None)
         problem, batch, exc, rows, info = run_batch(ctx, ntasks, store, fine, faults)
         desc = "tasks=%d store=%r fine=%r faults=%r schedule=%r" % (
             ntasks, store, fine, faults, [(w, l) for w, l in info["trace"]][:60])
